@@ -244,6 +244,36 @@ Definition whole_script_data (first : Z) (data_length : Z) : bool :=
   || ((first =? 4) && (data_length =? 65))
   || (data_length =? 64).
 
+(* parse_bytesio's post-processing for script type 'multisig' (blueprint exactly OP_m key.. OP_n CHECKMULTISIG):
+   ScriptError when m > #keys or #keys <> n *)
+Definition is_opn (b : byte) : bool := (81 <=? bz b) && (bz b <=? 96).
+
+Fixpoint count_keys (l : list item) : nat * list item :=
+  match l with
+  | IData d :: r =>
+      match get_data_type d with
+      | DKey => let '(n, r') := count_keys r in (S n, r')
+      | _ => (O, l)
+      end
+  | _ => (O, l)
+  end.
+
+Definition multisig_ok (l : list item) : bool :=
+  match l with
+  | IOp m :: r =>
+      if is_opn m then
+        let '(k, r') := count_keys r in
+        match k, r' with
+        | S _, [IOp n; IOp c] =>
+            if is_opn n && (bz c =? 174)
+            then (bz m - 80 <=? Z.of_nat k) && (Z.of_nat k =? bz n - 80)
+            else true
+        | _, _ => true
+        end
+      else true
+  | _ => true
+  end.
+
 (* result of the real parser: items, ScriptError/IndexError (caught by an enclosing level, which
    then keeps the bytes as plain data), or any other exception (propagates to the caller) *)
 Inductive pres := POk (l : list item) | PSoft | PHard.
@@ -320,7 +350,10 @@ Section LibParse.
     end.
 
   Definition unwrap_res (r : pres) : pres :=
-    match r with POk l => POk (unwrap1 l) | e => e end.
+    match r with
+    | POk l => let u := unwrap1 l in if multisig_ok u then POk u else PSoft
+    | e => e
+    end.
 
   (* level 1: Script.parse_bytes(data, _level=1) *)
   Definition parse_sub (d : bytes) : pres :=
